@@ -4,6 +4,7 @@
 mod abs;
 mod c07;
 mod c10;
+mod excl;
 mod c12;
 mod c13;
 mod c15;
@@ -108,6 +109,7 @@ fn main() {
     match fam {
         "c07" => c07::run(&args[2], &args[3]),
         "c10" => c10::run(&args[2], &args[3]),
+        "excl" => excl::run(&args[2], &args[3]),
         "c12" => c12::run(&args[2], &args[3], args.get(4).and_then(|n| n.parse().ok()).unwrap_or(3)),
         "c13" => c13::run(&args[2], &args[3]),
         "c15" => c15::run(&args[2], &args[3], &args[4], &args[5]),
